@@ -597,11 +597,17 @@ econf_err econf_writeFile(econf_file *key_file, const char *save_to_dir,
   }
 
   // Write to file
+  // Entries without a group can only be written in front of the first group.
+  // So they are written first, wherever they are in the list.
+  const char *last_group = NULL; // group of the entry written last
+  for (int nogroup = 1; nogroup >= 0; nogroup--)
   for (size_t i = 0; i < key_file->length; i++) {
+    if ((strcmp(key_file->file_entry[i].group, KEY_FILE_NULL_VALUE) == 0) != nogroup)
+      continue;
     // Writing group
-    if (!i || strcmp(key_file->file_entry[i - 1].group,
-                     key_file->file_entry[i].group)) {
-      if (i)
+    if (last_group == NULL || strcmp(last_group,
+				     key_file->file_entry[i].group)) {
+      if (last_group)
         fprintf(kf, "\n");
       if (strcmp(key_file->file_entry[i].group, KEY_FILE_NULL_VALUE)) {
 	char *group = addbrackets(key_file->file_entry[i].group);
@@ -609,6 +615,8 @@ econf_err econf_writeFile(econf_file *key_file, const char *save_to_dir,
         free(group);
       }
     }
+
+    last_group = key_file->file_entry[i].group;
 
     // Writing heading comments
     if (key_file->file_entry[i].comment_before_key &&
